@@ -7,7 +7,7 @@ use hx_common::*;
 struct Aligned([u8; 2048]);
 
 const SIZES: [usize; 9] = [1, 2, 3, 4, 5, 8, 12, 16, 20];
-const CAPS: [usize; 8] = [16, 24, 32, 40, 48, 64, 96, 128];
+const CAPS: [usize; 21] = [16, 17, 20, 23, 24, 25, 28, 31, 32, 36, 40, 44, 47, 48, 52, 60, 64, 68, 96, 100, 128];
 
 #[derive(Clone)]
 struct Msg {
@@ -49,12 +49,25 @@ macro_rules! with_cap {
     ($n:expr, $N:ident, $body:expr) => {
         match $n {
             16 => { const $N: usize = 16; $body }
+            17 => { const $N: usize = 17; $body }
+            20 => { const $N: usize = 20; $body }
+            23 => { const $N: usize = 23; $body }
             24 => { const $N: usize = 24; $body }
+            25 => { const $N: usize = 25; $body }
+            28 => { const $N: usize = 28; $body }
+            31 => { const $N: usize = 31; $body }
             32 => { const $N: usize = 32; $body }
+            36 => { const $N: usize = 36; $body }
             40 => { const $N: usize = 40; $body }
+            44 => { const $N: usize = 44; $body }
+            47 => { const $N: usize = 47; $body }
             48 => { const $N: usize = 48; $body }
+            52 => { const $N: usize = 52; $body }
+            60 => { const $N: usize = 60; $body }
             64 => { const $N: usize = 64; $body }
+            68 => { const $N: usize = 68; $body }
             96 => { const $N: usize = 96; $body }
+            100 => { const $N: usize = 100; $body }
             128 => { const $N: usize = 128; $body }
             n => panic!("unsupported capacity {n}"),
         }
@@ -246,13 +259,21 @@ pub fn generate(rng: &mut Rng) -> Vec<String> {
     match rng.below(4) {
         0 | 1 => lines.push(format!("cmsg build {cap} {ms}")),
         2 => {
-            let (_, bytes) = build(cap, &msgs);
+            // the generator uses the real builder to obtain valid layouts; if that panics the
+            // case degrades to a plain `build` operation, which reports the panic through a monitor
+            let Ok((_, bytes)) = catch(|| build(cap, &msgs)) else {
+                lines.push(format!("cmsg build {cap} {ms}"));
+                return lines;
+            };
             let n = *rng.pick(&SIZES);
             lines.push(format!("cmsg decode {} {n}", hex(&bytes)));
         }
         _ => {
             // hostile bytes for the header traversal: valid buffer with mutated length fields, or noise
-            let (_, mut bytes) = build(cap, &msgs);
+            let Ok((_, mut bytes)) = catch(|| build(cap, &msgs)) else {
+                lines.push(format!("cmsg build {cap} {ms}"));
+                return lines;
+            };
             if bytes.is_empty() || rng.chance(1, 3) {
                 bytes = vec![0u8; *rng.pick(&[0usize, 8, 15, 16, 17, 24, 40, 64])];
             }
